@@ -83,9 +83,13 @@ func (s *linState) canon() string {
 	return s.key
 }
 
-func linModel(now int64) porcupine.Model {
+func linModel(now int64, abaTolerant bool) porcupine.Model {
 	return porcupine.Model{
-		Init: func() interface{} { return &linState{m: NewModel(), sess: map[int]*Sess{}} },
+		Init: func() interface{} {
+			m := NewModel()
+			m.abaTolerant = abaTolerant
+			return &linState{m: m, sess: map[int]*Sess{}}
+		},
 		Step: func(state, input, output interface{}) (bool, interface{}) {
 			st := state.(*linState).clone()
 			in := input.(linInput)
@@ -125,6 +129,7 @@ type linChecker struct {
 	result    string
 	nops      int
 	skipFinal bool
+	execs     int
 }
 
 func newLinChecker(p *Plan) Checker { return &linChecker{plan: p} }
@@ -133,7 +138,7 @@ func (c *linChecker) OnReply(w *World, op *Op) *Violation { return nil }
 func (c *linChecker) OnStep(w *World) *Violation          { return nil }
 
 func (c *linChecker) Extra() map[string]int {
-	m := map[string]int{"overlaps": c.overlaps, "ops": c.nops}
+	m := map[string]int{"overlaps": c.overlaps, "ops": c.nops, "exec-answered": c.execs}
 	m["porcupine-"+c.result] = 1
 	return m
 }
@@ -156,6 +161,9 @@ func (c *linChecker) Final(w *World) *Violation {
 		}
 		in := linInput{client: op.Client, gen: op.ConnGen, argv: strs(op.Item.Args), obs: op.Item.Tag == "obs"}
 		o := porcupine.Operation{ClientId: op.Client, Input: in, Call: op.Invoke, Output: op.Reply, Return: op.Return}
+		if op.Return >= 0 && strings.EqualFold(string(op.Item.Args[0]), "EXEC") && !op.Reply.IsErr() {
+			c.execs++
+		}
 		if op.Return < 0 {
 			in.pending = true
 			o.Input = in
@@ -191,7 +199,7 @@ func (c *linChecker) Final(w *World) *Violation {
 	}
 	w.stats.Overlaps = c.overlaps
 	now := w.WallNow().UnixNano()
-	res, info := porcupine.CheckOperationsVerbose(linModel(now), ops, 30*time.Second)
+	res, info := porcupine.CheckOperationsVerbose(linModel(now, false), ops, 30*time.Second)
 	switch res {
 	case porcupine.Ok:
 		c.result = "ok"
@@ -202,6 +210,11 @@ func (c *linChecker) Final(w *World) *Violation {
 	}
 	c.result = "illegal"
 	_ = info
+	fp := "lin"
+	if r2, _ := porcupine.CheckOperationsVerbose(linModel(now, true), ops, 30*time.Second); r2 == porcupine.Ok {
+		// the history is explained exactly by the open known finding
+		fp = "reply:exec:conc:watched-missing-key-recreated-and-removed:lin"
+	}
 	// describe: the history, ordered by invocation
 	var sb strings.Builder
 	sort.SliceStable(ops, func(i, j int) bool { return ops[i].Call < ops[j].Call })
@@ -224,7 +237,7 @@ func (c *linChecker) Final(w *World) *Violation {
 	sort.Strings(nl)
 	// one class for all illegal histories: minimisation then finds a smallest
 	// illegal history, whose command set is reported in the message
-	return &Violation{Oracle: "linearizability", Step: w.step, Fp: "lin",
+	return &Violation{Oracle: "linearizability", Step: w.step, Fp: fp,
 		Msg: "commands involved: " + strings.Join(nl, " ") + "\nno sequential order of these commands (respecting per-connection order and real-time precedence) yields the observed replies and final state:\n" + sb.String()}
 }
 
